@@ -746,10 +746,10 @@ fn shard_of(seed: u64) -> u64 {
     seed % 1000
 }
 
-/// No `Float64`, no `Data` anywhere inside (the fragment `F` of the theorems).
+/// No `Float64` anywhere inside (the fragment `F` of the theorems).
 fn in_f(v: &Value) -> bool {
     match v {
-        Value::Float64Value(_) | Value::Data(_) => false,
+        Value::Float64Value(_) => false,
         Value::Record(attrs, items) => {
             attrs.iter().all(|a| in_f(&a.value))
                 && items.iter().all(|i| match i {
